@@ -173,6 +173,63 @@ def recomputed_rule(chk, prog):
                 chk.error("RECOMPUTED: %s.%s is no longer assigned by any per-sample method (2 sites confirmed by hand)" % (cname, attr))
 
 
+def dropout_exit(chk, prog, ref):
+    """DROPOUT-EXIT: a test whether the norm of a raw sensor sample is zero must end, on its zero side, in `raise` or `return` (refuse the sample or skip the
+    correction).  A zero side that merely produces a substitute value and carries on (`a = acc/n if n > 0 else <something>`) feeds a made-up measurement to
+    the correction, which drags the estimate towards it for as long as the dropout lasts."""
+    f = prog.func(ref)
+    tests = []
+
+    class G(Facts):
+        def split(self2, test, st):
+            vn = None
+            t = test
+            neg = False
+            while isinstance(t, ast.UnaryOp) and isinstance(t.op, ast.Not):
+                t, neg = t.operand, not neg
+            if isinstance(t, ast.Compare) and len(t.ops) == 1 and isinstance(t.comparators[0], ast.Constant) and t.comparators[0].value == 0:
+                v = self2.vn(t.left, st)
+                if sample_norm(v, f):
+                    op = type(t.ops[0])
+                    zero_when_true = (op is ast.Eq) != neg if op in (ast.Eq,) else ((op in (ast.Gt, ast.NotEq)) == neg if op in (ast.Gt, ast.NotEq) else None)
+                    if zero_when_true is not None:
+                        tests.append((test, zero_when_true, v))
+            return super().split(test, st)
+    G(f, prog).analyse()
+    seen = set()
+    n = 0
+    for node in ast.walk(f.node):
+        for test, zero_when_true, v in tests:
+            if id(test) in seen:
+                continue
+            if isinstance(node, ast.If) and node.test is test:
+                seen.add(id(test))
+                n += 1
+                arm = node.body if zero_when_true else node.orelse
+                site = "%s::if %s" % (ref, ast.unparse(test)[:50])
+                if not arm:
+                    # `if n > 0: <correction>` with nothing on the zero side: the correction is skipped
+                    chk.record("DROPOUT-EXIT", site, "the correction is nested under the non-zero side: a null sample skips it")
+                    continue
+                last = arm[-1]
+                if isinstance(last, (ast.Raise, ast.Return, ast.Continue)):
+                    chk.record("DROPOUT-EXIT", site, "zero side ends in %s" % type(last).__name__.lower())
+                else:
+                    why = "the zero side of `%s` neither raises nor returns: the method goes on with a substitute for the missing sample" % ast.unparse(test)[:60]
+                    chk.record("DROPOUT-EXIT", site, "zero side refuses or skips", verdict="VIOLATION", detail=why)
+                    chk.finding("DROPOUT-EXIT", f.module.rel, f.qname, "zero side of %s" % ast.unparse(test)[:50], why, line=node.lineno)
+            elif isinstance(node, ast.IfExp) and node.test is test:
+                seen.add(id(test))
+                n += 1
+                sub = node.body if zero_when_true else node.orelse
+                site = "%s::%s" % (ref, ast.unparse(node)[:60])
+                why = "`%s` replaces a null sample by `%s` and carries on: the correction is computed from a made-up measurement instead of being skipped or refused" % (
+                    ast.unparse(node)[:70], ast.unparse(sub)[:30])
+                chk.record("DROPOUT-EXIT", site, "a null sample is refused or skipped, never substituted", verdict="VIOLATION", detail=why)
+                chk.finding("DROPOUT-EXIT", f.module.rel, f.qname, "substitute for a null sample: %s" % ast.unparse(node)[:60], why, line=node.lineno)
+    return n
+
+
 def fkf_loop(chk, prog):
     """FKF._compute_all: the per-sample helper is called with raw rows; the helper must guard (checked above)."""
     f = prog.func(F + "fkf.py::FKF._compute_all")
@@ -217,6 +274,7 @@ RECURSIVE_ENTRIES = {"madgwick.py::Madgwick.updateIMU", "madgwick.py::Madgwick.u
 def run(chk, prog, tier):
     for ref, n in SITES:
         analyse_site(chk, prog, ref, n)
+        dropout_exit(chk, prog, ref)
     # every return path of the per-sample entry points - in particular the dropout arms - is a unit quaternion
     from props.c03 import unit_ret
     unit_ret(chk, prog, only=RECURSIVE_ENTRIES)
